@@ -248,65 +248,10 @@ func runC02(r *R) {
 	}
 
 	// ---- R5
-	r.Rule("C02-R5", "putWithPipe: the write end is closed only with CloseWithError(err) where err carries the select's outcome (copy error, put error or ctx.Err())", 1)
-	if fn := r.NeedFn("C02-R5", ks+".putWithPipe"); fn != nil {
-		all := append([]*ssa.Function{fn}, Closures(fn)...)
-		nClose := 0
-		for _, f := range all {
-			for _, c := range CallsIn(f, "(*io.PipeWriter).Close") {
-				r.Bad("C02-R5", f, "pipew.Close()", c.Pos(), "write end closed cleanly: an early end would look like EOF to WriteBlock")
-			}
-			for _, c := range CallsIn(f, "(*io.PipeWriter).CloseWithError") {
-				nClose++
-				errv := c.Common().Args[1]
-				leaves := PhiLeaves(errv)
-				// required: three arms — receive from copyErr, receive from putErr, ctx.Err()
-				recv, ctxerr, other := 0, 0, 0
-				for _, l := range leaves {
-					switch x := l.(type) {
-					case *ssa.Extract:
-						if _, ok := x.Tuple.(*ssa.Select); ok {
-							recv++
-						} else if cc, ok := x.Tuple.(*ssa.Call); ok && CalleeName(cc.Common()) == "(context.Context).Err" {
-							ctxerr++
-						} else {
-							other++
-						}
-					case *ssa.UnOp:
-						recv++ // <-chan
-					case *ssa.Call:
-						if CalleeName(x.Common()) == "(context.Context).Err" {
-							ctxerr++
-						} else {
-							other++
-						}
-					default:
-						other++ // includes the zero/nil constant: a select arm that leaves err nil
-					}
-				}
-				r.Check(recv >= 2 && ctxerr >= 1 && other == 0, "C02-R5", f, "pipew.CloseWithError(err)", c.Pos(),
-					"err is one of <-copyErr, <-putErr, ctx.Err()", "some select arm leaves err nil (or of unknown origin): the reader would see a clean EOF after a partial copy")
-			}
-		}
-		if nClose == 0 {
-			r.Bad("C02-R5", fn, "pipew.CloseWithError", fn.Pos(), "write end is never closed with an error")
-		}
-		// WriteBlock is given the read end of that pipe
-		for _, f := range all {
-			for _, c := range CallsMatching(f, func(n string, c *ssa.CallCommon) bool { return w.IsMethodOfIface(c, ks+".BlockWriter", "WriteBlock") }) {
-				a := CallArgs(c.Common())
-				ok := false
-				for _, l := range PhiLeaves(a[2]) {
-					if l == nil {
-						continue
-					}
-					// piper is a free variable bound to extract #0 of io.Pipe()
-					ok = strings.Contains(describeOrigin(l), "io.Pipe")
-				}
-				r.Check(ok, "C02-R5", f, "WriteBlock(ctx, loc, piper)", c.Pos(), "reads from the pipe", "WriteBlock is not reading from the pipe that putWithPipe controls")
-			}
-		}
-	}
+	pipeCloseRule(r, "C02-R5")
+
+	// R7: the existing-copy comparison accepts only an identical copy (shared with C01-R7)
+	compareRule(r, "C02-R7")
 
 	// ---- R6
 	r.Rule("C02-R6", "handlePUT acknowledges (locator body, X-Keep-Replicas-Stored) only under PutBlock err==nil; PutBlock returns replication only after Put==nil or via CompareAndTouch", 2)
@@ -470,4 +415,69 @@ func describeOrigin(v ssa.Value) string {
 		return describeOrigin(x.X)
 	}
 	return v.String()
+}
+
+// pipeCloseRule (C02-R5, C01-R9): putWithPipe never lets WriteBlock see a clean EOF after a partial body.
+func pipeCloseRule(r *R, rule string) {
+	w := r.W
+	r.Rule(rule, "putWithPipe: the write end is closed only with CloseWithError(err) where err carries the select's outcome (copy error, put error or ctx.Err())", 1)
+	if fn := r.NeedFn(rule, ks+".putWithPipe"); fn != nil {
+		all := append([]*ssa.Function{fn}, Closures(fn)...)
+		nClose := 0
+		for _, f := range all {
+			for _, c := range CallsIn(f, "(*io.PipeWriter).Close") {
+				r.Bad(rule, f, "pipew.Close()", c.Pos(), "write end closed cleanly: an early end would look like EOF to WriteBlock")
+			}
+			for _, c := range CallsIn(f, "(*io.PipeWriter).CloseWithError") {
+				nClose++
+				errv := c.Common().Args[1]
+				leaves := PhiLeaves(errv)
+				// required: three arms — receive from copyErr, receive from putErr, ctx.Err()
+				recv, ctxerr, other := 0, 0, 0
+				for _, l := range leaves {
+					switch x := l.(type) {
+					case *ssa.Extract:
+						if _, ok := x.Tuple.(*ssa.Select); ok {
+							recv++
+						} else if cc, ok := x.Tuple.(*ssa.Call); ok && CalleeName(cc.Common()) == "(context.Context).Err" {
+							ctxerr++
+						} else {
+							other++
+						}
+					case *ssa.UnOp:
+						recv++ // <-chan
+					case *ssa.Call:
+						if CalleeName(x.Common()) == "(context.Context).Err" {
+							ctxerr++
+						} else {
+							other++
+						}
+					default:
+						other++ // includes the zero/nil constant: a select arm that leaves err nil
+					}
+				}
+				r.Check(recv >= 2 && ctxerr >= 1 && other == 0, rule, f, "pipew.CloseWithError(err)", c.Pos(),
+					"err is one of <-copyErr, <-putErr, ctx.Err()", "some select arm leaves err nil (or of unknown origin): the reader would see a clean EOF after a partial copy")
+			}
+		}
+		if nClose == 0 {
+			r.Bad(rule, fn, "pipew.CloseWithError", fn.Pos(), "write end is never closed with an error")
+		}
+		// WriteBlock is given the read end of that pipe
+		for _, f := range all {
+			for _, c := range CallsMatching(f, func(n string, c *ssa.CallCommon) bool { return w.IsMethodOfIface(c, ks+".BlockWriter", "WriteBlock") }) {
+				a := CallArgs(c.Common())
+				ok := false
+				for _, l := range PhiLeaves(a[2]) {
+					if l == nil {
+						continue
+					}
+					// piper is a free variable bound to extract #0 of io.Pipe()
+					ok = strings.Contains(describeOrigin(l), "io.Pipe")
+				}
+				r.Check(ok, rule, f, "WriteBlock(ctx, loc, piper)", c.Pos(), "reads from the pipe", "WriteBlock is not reading from the pipe that putWithPipe controls")
+			}
+		}
+	}
+
 }
